@@ -23,12 +23,12 @@ IV2(b) == {<<x, y>> : x \in -b..b, y \in -b..b}
 IV3(b) == {<<x, y, z>> : x \in -b..b, y \in -b..b, z \in -b..b}
 T3 == {<<1, 0, 0>>, <<0, 1, 0>>, <<0, 0, -1>>, <<1, 1, 0>>, <<1, -1, 2>>, <<-2, 1, 1>>, <<2, 2, -2>>, <<0, 0, 0>>, <<-1, -1, 0>>, <<1, 2, 3>>}
 \* rational unit vectors: numerators and the common denominator
-U2 == << <<1, 0, 1>>, <<0, 1, 1>>, <<-1, 0, 1>>, <<0, -1, 1>>, <<3, 4, 5>>, <<4, 3, 5>>, <<-3, 4, 5>>, <<3, -4, 5>>, <<-4, -3, 5>>, <<4, -3, 5>>,
-         <<5, 12, 13>>, <<-12, 5, 13>>, <<12, -5, 13>>, <<-5, -12, 13>> >>
-U3 == << <<1, 0, 0, 1>>, <<0, 1, 0, 1>>, <<0, 0, -1, 1>>, <<1, 2, 2, 3>>, <<-2, 1, -2, 3>>, <<2, -2, 1, 3>>, <<-1, -2, -2, 3>>,
-         <<2, 3, 6, 7>>, <<-6, 2, 3, 7>>, <<3, -6, -2, 7>>, <<1, 4, 8, 9>>, <<-4, -4, 7, 9>>, <<3, 4, 0, 5>>, <<0, -4, 3, 5>> >>
+U2 == << <<1, 0, 1>>, <<0, 1, 1>>, <<0, -1, 1>>, <<3, 4, 5>>, <<4, 3, 5>>, <<-3, 4, 5>>, <<3, -4, 5>>, <<-4, -3, 5>>,
+         <<5, 12, 13>>, <<-12, 5, 13>>, <<12, -5, 13>> >>
+U3 == << <<1, 0, 0, 1>>, <<0, 1, 0, 1>>, <<0, 0, -1, 1>>, <<1, 2, 2, 3>>, <<-2, 1, -2, 3>>, <<-1, -2, -2, 3>>,
+         <<2, 3, 6, 7>>, <<-6, 2, 3, 7>>, <<1, 4, 8, 9>>, <<3, 4, 0, 5>>, <<0, -4, 3, 5>> >>
 UTab(L) == IF L = 2 THEN U2 ELSE U3
-Etas == << <<1, 2>>, <<2, 3>>, <<3, 4>>, <<1, 1>>, <<5, 4>>, <<4, 3>>, <<3, 2>>, <<5, 3>>, <<2, 1>>, <<3, 1>>, <<13, 12>>, <<13, 5>> >>
+Etas == << <<1, 2>>, <<3, 4>>, <<1, 1>>, <<5, 4>>, <<4, 3>>, <<5, 3>>, <<2, 1>>, <<13, 12>>, <<13, 5>> >>
 
 \* Two levels of fan-out (root -> seed -> configuration) so that the configurations are generated and judged by all workers.
 Init == st = [k |-> "root"]
@@ -39,7 +39,7 @@ Next == \/ st.k = "root" /\ \/ \E a \in IV2(B2) \cup IV3(B3a) : st' = [k |-> "se
         \/ st.k = "seedTri" /\ \E a \in (IF Len(st.p) = 2 THEN IV2(1) ELSE T3), b \in (IF Len(st.p) = 2 THEN IV2(1) ELSE T3) :
                                   st' = [k |-> "tri", p |-> st.p, a |-> a, b |-> b]
         \/ st.k = "seedRay" /\ \E j \in 1..Len(UTab(st.L)), e \in 1..Len(Etas) : st' = [k |-> "ray", L |-> st.L, i |-> st.i, j |-> j, e |-> e, flag |-> 0]
-        \/ st.k = "pair" /\ st' = [st EXCEPT !.a = st.b, !.b = st.a]                       \* swap the arguments
+        \/ st.k = "pair" /\ Len(st.a) = 2 /\ st' = [st EXCEPT !.a = st.b, !.b = st.a]    \* swap the arguments (L = 2: closed family)
         \/ st.k = "tri" /\ st' = [st EXCEPT !.p = st.a, !.a = st.b, !.b = st.p]            \* rotate the arguments
         \/ st.k = "ray" /\ st' = [st EXCEPT !.flag = 1 - st.flag]                          \* reflect I about N (and back)
 Spec == Init /\ [][Next]_vars
@@ -70,6 +70,17 @@ InvDot ==
       /\ QEq(GDistance2(a, b), QSub(QAdd(GLength2(a), GLength2(b)), QMulInt(GDot(a, b), 2)))                              \* distance = length(a - b)
       /\ QEq(GDistance2(a, b), GDistance2(b, a))
       /\ \A n \in 0..8 : GIsLength(QI(n), a) <=> (n * n = ZToInt(GLength2(a).p))                                           \* length = sqrt(dot(v,v))
+\* ---- gtx/norm: l1, lMax, lx norms
+InvNorms ==
+    IsPair => LET a == QVi(st.a) b == QVi(st.b) da == DVi(st.a) IN
+      /\ QSign(GL1(a)) >= 0 /\ (QIsZero(GL1(a)) <=> VIsZero(a))
+      /\ QLe(GL1(VAdd(a, b)), QAdd(GL1(a), GL1(b)))                                                     \* triangle inequality
+      /\ QLe(QMul(GLMax(a), GLMax(a)), GLength2(a)) /\ QLe(GLength2(a), QMul(GL1(a), GL1(a)))           \* lMax <= l2 <= l1
+      /\ \E i \in 1..LenA : QEq(GLMax(a), QAbs(a[i]))
+      /\ QEq(GLxPow(a, 1), GL1(a)) /\ QEq(GLxPow(a, 2), GLength2(a))                                    \* lx norm for x = 1, 2
+      /\ QEq(QFromD(DvNorm1(da)), GL1(a)) /\ QEq(QFromD(DMaxAbs(da)), GLMax(a))                         \* the dyadic forms
+      /\ \A d \in 1..4 : QEq(QFromD(JLxPow(da, d)), GLxPow(a, d))
+      /\ \A n \in 0..4 : JLxOk(DFromInt(n), da, 3, F32) <=> QEq(GPowN(QI(n), 3), GLxPow(a, 3))
 \* ---- cross product (L = 3), exterior product (L = 2)
 InvCross ==
     IsPair => LET a == QVi(st.a) b == QVi(st.b) IN
